@@ -170,6 +170,18 @@ def register_rules(R, pfx="C06"):
         R.inst(pfx + ".check_op.result", "K6 flows-to", "check_user_permissions(op.source) and op.verify_signature(&op.source) concern the same signer", 2, ok)
     R.gate(pfx + ".user_perm", RG + "::check_user_permissions", RetSink("Ok"), [[CallGuard(["ant_registers::permissions::Permissions::can_write"], ("true",), "permissions.can_write(requester)")]],
            descr="check_user_permissions is Ok only for a listed writer")
+    # ... and can_write itself: true only for an open register or for a user the writers set contains (an empty writers list
+    # grants nothing)
+    cw = R.body(pfx + ".can_write", "ant_registers::permissions::Permissions::can_write")
+    if cw is not None:
+        from rules import VariantGuard, PL
+        import tables as T
+        PERM = "ant_registers::permissions::Permissions"
+        names_ = T.variant_names(R.F, PERM) or {}
+        idx_ = {v: k for k, v in names_.items()}.get("AnyoneCanWrite", -1)
+        g_open = VariantGuard(lambda b: PL(b, 0), "AnyoneCanWrite", idx_, "permissions are AnyoneCanWrite")
+        g_in = CallGuard(["alloc::collections::btree::set::BTreeSet::contains", "*BTreeSet<T, A>::contains", "*::contains"], ("true",), "writers.contains(user)")
+        R.gate(pfx + ".can_write", cw, RetSink("true", computed=True), [[g_open, g_in]], descr="can_write is true only for AnyoneCanWrite or a listed writer")
     vim = R.body(pfx + ".mergeable", RG + "::verify_is_mergeable")
     if vim is not None:
         R.gate(pfx + ".mergeable", vim, RetSink("Ok"),
@@ -194,6 +206,10 @@ def register_rules(R, pfx="C06"):
 def run(R):
     F = R.F
     add, ver = register_rules(R, "C06")
+    # "only authorised writes" at a node: what a node stores for a register is a verified incoming copy, or the verified merge of it
+    # into the copy it holds (rules of C07 on register_validation / validate_and_store_register)
+    import props.C07 as _C07
+    R.import_rules("C07", _C07.run, ["C07.reg."], "C06.node")
     # (5) limit agreement
     if add is not None and ver is not None:
         prep(add); prep(ver)
@@ -391,6 +407,15 @@ def op_rules(R, pfx="C06"):
         R.gate(pfx + ".apply.addr", ap, CallSink("*crdts::traits::CmRDT>::apply", "*CmRDT::apply"),
                [[CmpGuard(fld("address", 0), fld("address", 1), "Eq", "self.address == op.address", through="all")]],
                descr="apply_op applies an operation only if it is addressed to this register")
+        # ... and refuses nothing else: an operation addressed to this register is always handed to the CRDT, whatever order it
+        # arrives in (a cap on buffered out-of-order operations makes the replicas' state depend on delivery order)
+        g_addr = CmpGuard(fld("address", 0), fld("address", 1), "Eq", "self.address == op.address", through="all")
+        R.only_propagated_errors(pfx + ".apply.total", CRDT + "::apply_op", "apply_op answers Err only for an operation addressed to another register",
+                                 allow=[("address mismatch", g_addr)])
+        n_a, acc_a, _ = g_addr.edges(ap)
+        if acc_a:
+            R.must_pass(pfx + ".apply.always", ap, [("MerkleReg::apply(op.crdt_op)", CallSink("*crdts::traits::CmRDT>::apply", "*CmRDT::apply"))], from_blocks=tuple(d for _, d in acc_a),
+                        descr="an operation addressed to this register always reaches the CRDT (no cap, no ordering requirement of the wrapper's own)")
 
 
 def crdt_rules(R, pfx="C06"):
